@@ -17,7 +17,8 @@ const vfWide = "0123456789012345678901234567890123456789012345678901234567890123
 // 5 auto none, 6 auto html, 7 html wrapper with a named template, 8 text table with a very wide column,
 // 9 json of a table holding an item json cannot encode (fails part-way), 10 text table with non-ASCII text,
 // 11 text table with a decoration looked up in the registry and then customised by its owner (a '~' rule),
-// 12 text table with that same registered decoration as it is
+// 12 text table with that same registered decoration as it is, 13 text table whose owner registers its
+// own decoration under a name at run time and then selects it by that name
 func vfScenario(sc int, a string) (string, bool) {
 	var t tabular.Table
 	switch sc {
@@ -64,6 +65,14 @@ func vfScenario(sc int, a string) (string, bool) {
 		tt := texttable.Wrap(t)
 		tt.SetDecorationNamed(decoration.D_UTF8_LIGHT)
 		out, err = tt.Render()
+	case 13:
+		d := decoration.ASCIIBoxSimple()
+		d.CrossPiece = "#"
+		name := vfFresh("vf-own-decoration")
+		decoration.RegisterDecorationName(name, d)
+		tt := texttable.Wrap(t)
+		tt.SetDecorationNamed(name)
+		out, err = tt.Render()
 	case 4:
 		out, err = Render(t, "utf8-light")
 	case 5:
@@ -84,10 +93,10 @@ func vfScenario(sc int, a string) (string, bool) {
 func VerifC16_independent() {
 	a1 := vfString("a1", 1, vfTXT)
 	a2 := vfString("a2", 1, vfTXT)
-	s1 := vfChoice("scenario1", 13)
+	s1 := vfChoice("scenario1", 14)
 	s2 := 0
 	if vfTier() == 1 {
-		s2 = vfChoice("scenario2", 13)
+		s2 = vfChoice("scenario2", 14)
 	} else {
 		s2 = []int{3, 6, 7, 8, 1, 12}[vfChoice("scenario2", 6)]
 	}
@@ -154,4 +163,50 @@ func VerifC16_listers() {
 		w, wf := vfScenario(4, "x")
 		vfAssert(vfAnd(out == w, failed == wf), "output-equals-solo-output")
 	}
+}
+
+// VerifC16_copies: tables cut from an already rendered master table by copying its cells (cells are
+// values) are independent tables: rendering them from different goroutines is race-free and each output
+// is what that table gives alone.
+func VerifC16_copies() {
+	master := tabular.New()
+	master.AddHeaders("h1", "h2")
+	master.AddRowItems("first", "x")
+	master.AddRowItems("second\nline", "y")
+	if vfChoice("master-rendered", 2) == 1 {
+		texttable.Render(master)
+		markdown.Render(master)
+	}
+	cut := func(rowIdx int) tabular.Table {
+		t := tabular.New()
+		t.AddHeaders("k1", "k2")
+		r := tabular.NewRow()
+		for _, c := range master.AllRows()[rowIdx].Cells() {
+			r.Add(c)
+		}
+		t.AddRow(r)
+		return t
+	}
+	t1 := cut(vfChoice("row1", 2))
+	t2 := cut(vfChoice("row2", 2))
+	f1, f2 := vfChoice("format1", 2), vfChoice("format2", 2)
+	render := func(t tabular.Table, f int) (string, bool) {
+		if f == 0 {
+			out, err := texttable.Render(t)
+			return out, err != nil
+		}
+		out, err := markdown.Render(t)
+		return out, err != nil
+	}
+	var o1, o2 string
+	var e1, e2 bool
+	vfPar(
+		func() { o1, e1 = render(t1, f1) },
+		func() { o2, e2 = render(t2, f2) },
+	)
+	w1, we1 := render(t1, f1)
+	w2, we2 := render(t2, f2)
+	vfAssert(vfAnd(o1 == w1, e1 == we1), "output-equals-solo-output")
+	vfAssert(vfAnd(o2 == w2, e2 == we2), "output-equals-solo-output")
+	vfAssert(vfAnd(!e1, !e2), "render-ok")
 }
